@@ -1,9 +1,9 @@
 SPECIFICATION Spec
 CONSTANTS
   NUri = 2
-  NText = 5
+  NText = 6
   MaxHist = 3
-  Kinds = {"open", "change1"}
+  Kinds = {"open", "change1", "lowver"}
   Emit = TRUE
   Deviations = {}
 INVARIANTS CacheCoherent DocsFollowProtocol PublishesMatchNotifications AnswerExactlyOnce NoPendingAtRest NeverAnswerNotification Survives EmitReplay
